@@ -241,6 +241,72 @@ pub fn cmd_builder(v: &Value) -> Value {
     out
 }
 
+/// job: {"cmd":"macro","k":0|1,"p":[six floats],"ints":[lo,hi],"n":count,"dir":"min"|"max"}
+/// Models written with the builder's declarative macros (`vars!`, `constraint!`, `expr!`): every declaration rule of
+/// `vars!` (scalar and array form of bool / int / real / real(..) / nonneg / nonneg(..)) and every relation / logic rule of
+/// `constraint!`, with the numbers supplied by the job. The caller writes the same model as source text and compares.
+pub fn cmd_macro(v: &Value) -> Value {
+    use rooc::{constraint, expr, vars};
+    let k = v["k"].as_u64().unwrap_or(0);
+    let p: Vec<f64> = v["p"].as_array().unwrap().iter().map(fnum).collect();
+    let (ilo, ihi) = (v["ints"][0].as_i64().unwrap() as i32, v["ints"][1].as_i64().unwrap() as i32);
+    let n = v["n"].as_u64().unwrap_or(2) as usize;
+    let dir = v["dir"].as_str().unwrap_or("min").to_string();
+    let mut model = ModelBuilder::new();
+    let b = if k == 0 {
+        vars! { model =>
+            a: bool;
+            b: bool;
+            x: int(ilo, ihi);
+            y: real(p[0], p[1]);
+            z: nonneg(p[2], p[3]);
+            w: real;
+            u: nonneg;
+        };
+        let cons = vec![
+            constraint!(c1: x + y <= p[4]),
+            constraint!(y - z >= p[5]),
+            constraint!(c3: w + u == p[4]),
+            constraint!(w >= p[5]),
+            constraint!(u <= p[4]),
+            constraint!(a -> b),
+            constraint!(imp: a <-> b),
+            constraint!(a | b),
+        ];
+        let obj = expr!(x + y + z + w + u + a + b);
+        let m = model.with_all(cons);
+        if dir == "max" { m.maximize(obj) } else { m.minimize(obj) }
+    } else {
+        vars! { model =>
+            t[n]: real;
+            u[n]: nonneg;
+            s[n]: bool;
+            r[n]: int(ilo, ihi);
+            q[n]: real(p[0], p[1]);
+            o[n]: nonneg(p[2], p[3]);
+        };
+        let mut cons = vec![];
+        for i in 0..n {
+            cons.push(constraint!(t[i] >= p[5]));
+            cons.push(constraint!(t[i] + u[i] <= p[4]));
+            cons.push(constraint!(r[i] + q[i] - o[i] <= p[4]));
+            cons.push(constraint!(s[i] + r[i] >= p[5]));
+        }
+        let mut obj = Expr::from(0.0);
+        for i in 0..n {
+            obj = obj + t[i] + u[i] + s[i] + r[i] + q[i] + o[i];
+        }
+        let m = model.with_all(cons);
+        if dir == "max" { m.maximize(obj) } else { m.minimize(obj) }
+    };
+    let mut out = json!({});
+    out["lin"] = guarded_pub(|| match b.clone().linearize() {
+        Ok(l) => json!({"ok": lm_json(&l)}),
+        Err(e) => json!({"err": e.to_string()}),
+    });
+    out
+}
+
 /// job: {"cmd":"pipe","src":text,"solver":"auto"|"milp"|"none"}
 pub fn cmd_pipe(v: &Value) -> Value {
     let src = v["src"].as_str().unwrap().to_string();
